@@ -180,6 +180,22 @@ func c13VersionStream(srvDotu bool, ver string, srvMsize, cliMsize uint32) Scena
 	return c13VersionStreamX(srvDotu, ver, srvMsize, cliMsize, false)
 }
 
+// c13Tail: further requests behind the attaches of the version-in-stream scenarios (more
+// than 8 x the msize being negotiated, when set)
+var c13Tail int
+
+func c13VersionStreamLong(srvDotu bool, ver string, srvMsize, cliMsize uint32, tail int) Scenario {
+	sc := c13VersionStreamX(srvDotu, ver, srvMsize, cliMsize, false)
+	sc.Name += fmt.Sprintf(" followed-by-%d-more-requests", tail)
+	run := sc.Run
+	sc.Run = func(c *RunCtx) *Result {
+		c13Tail = tail
+		defer func() { c13Tail = 0 }()
+		return run(c)
+	}
+	return sc
+}
+
 // oversize: the Tversion is followed by one frame larger than the msize it negotiates
 // (and no larger than the server's own): the connection is dropped without executing
 // it, wherever the stream is cut.
@@ -197,6 +213,9 @@ func c13VersionStreamX(srvDotu bool, ver string, srvMsize, cliMsize uint32, over
 		}
 		if oversize {
 			stream = append(stream, wire.Encode(&wire.Msg{Type: wire.Twrite, Tag: 9, Fid: 5, Data: make([]byte, cliMsize)}, dotu)...)
+		}
+		for i := 0; i < c13Tail; i++ {
+			stream = append(stream, wire.Encode(&wire.Msg{Type: wire.Tstat, Tag: uint16(100 + i), Fid: uint32(i % 3)}, dotu)...)
 		}
 		// a fourth attach the implementation refuses with a text longer than a small client msize: the
 		// Rerror has to fit the msize just negotiated, however the stream was cut
@@ -286,6 +305,9 @@ func c13VersionStreamX(srvDotu bool, ver string, srvMsize, cliMsize uint32, over
 		}
 		try(nil, 0, "the whole stream in one read")
 		for k := 1; k < len(stream); k++ {
+			if len(stream) > 600 && k > 150 && k%97 != 0 {
+				continue // long streams: every split near the Tversion, then a sample
+			}
 			try([]int{k}, 0, fmt.Sprintf("split at %d", k))
 		}
 		for _, ch := range []int{2, 3, 5, 7, 19, 20, 21, 40} {
@@ -657,6 +679,7 @@ func c13Scenarios(tier string) []Scenario {
 		for _, ver := range []string{"9P2000", "9P2000.u"} {
 			out = append(out, c13VersionStream(sd, ver, 8216, 256), c13VersionStream(sd, ver, 128, 8216))
 			out = append(out, c13VersionStreamX(sd, ver, 1024, 128, true))
+			out = append(out, c13VersionStreamLong(sd, ver, 8216, 64, 80))
 		}
 	}
 	out = append(out, c13HeldPayload(64, true, false), c13HeldPayload(64, false, true), c13HeldPayload(256, true, true))
